@@ -219,7 +219,7 @@ Proof.
   assert (PLAIN : rem' = rem -> attrs' = attrs -> forallb is_ws rem = true ->
             exists xs trail news, pre ++ rem = r_atts xs ++ trail /\ Forall WfAttr xs /\ WfTrail trail /\
               attrs' = attrs ++ news /\ Forall2 (ATTROF (p_version st) ty) xs news).
-  { intros -> -> WR. exists [], (pre ++ rem), []. split; [reflexivity|]. split; [constructor|]. split; [left; apply allws_app; auto|].
+  { intros -> -> WR. exists [], (pre ++ rem), []. split; [reflexivity|]. split; [constructor|]. split; [apply allws_app; auto|].
     split; [symmetry; apply app_nil_r|constructor]. }
   destruct (find_byte 61 rem) as [eq_pos|] eqn:FE; [|injection H as <- <- _; exact (PLAIN eq_refl eq_refl W)].
   unfold find_byte in FE.
@@ -238,10 +238,7 @@ Proof.
   assert (PNE : pre <> []) by (destruct PR as [P|P]; [exact P|congruence]).
   rewrite ER in N62. apply no_byte_app in N62 as [N62a N62b]. apply no_byte_app in N62b as [_ N62b].
   destruct (find_byte q rem2) as [endq|] eqn:FQ.
-  2:{ injection H as <- <- _. exists [], (pre ++ rem), []. split; [reflexivity|]. split; [constructor|]. split.
-      - right. exists pre, nm, q, rem2. rewrite ER. repeat split; try assumption.
-        intros E. assert (LR : (List.length rem2 >= 1)%nat) by (unfold rem2; rewrite skipn_length; lia). rewrite E in LR. cbn in LR. lia.
-      - split; [symmetry; apply app_nil_r|constructor]. }
+  2:{ injection H as <- <- _. destruct (has61_not_ws _ _ FE W). }
   unfold find_byte in FQ. set (value := firstn endq rem2) in *. set (after := skipn (S endq) rem2) in *.
   assert (ER2 : rem2 = value ++ q :: after) by (exact (position_cut _ _ _ FQ)).
   assert (NQV : no_byte q value) by (exact (no_byte_of_position _ _ _ FQ)).
@@ -332,7 +329,7 @@ Proof.
       inv H as r s1 E1. injection E1 as <- <-. inv H as g s2 E2. inv H as u1 s3 E3. inv H as specs s4 E4. inv H as u2 s5 E5.
       injection H as <- _. reflexivity. }
     subst attrs. exists [], []. split; [cbn; rewrite app_nil_r; reflexivity|]. split; [exact CN|]. split; [constructor|].
-    split; [left; reflexivity|]. split; [constructor|auto].
+    split; [reflexivity|]. split; [constructor|auto].
 Qed.
 
 (* ---------- items ---------- *)
